@@ -34,6 +34,7 @@ func (l *pipeListener) Accept() (net.Conn, error) {
 }
 func (l *pipeListener) Close() error   { l.once.Do(func() { close(l.closed) }); return nil }
 func (l *pipeListener) Addr() net.Addr { return pipeAddr(l.addr) }
+
 // bufConn makes writes on an in-memory pipe non-blocking (bounded queue + pump goroutine). A bare
 // net.Pipe is unbuffered: two peers writing at the same time (TLS 1.3 Finished vs. session tickets)
 // would block each other forever.
@@ -153,7 +154,7 @@ func simDial(ctx context.Context, network, addr string) (net.Conn, error) {
 	if n == nil {
 		return nil, errors.New("sim: no network")
 	}
-	n.Dials++
+	n.countDial()
 	if n.DialFault != nil {
 		if err := n.DialFault(addr); err != nil {
 			return nil, err
@@ -179,3 +180,6 @@ func installTransport() {
 		http.DefaultTransport = tr
 	})
 }
+
+//go:norace
+func (n *SimNet) countDial() { n.Dials++ }
